@@ -337,6 +337,22 @@ fn variants(rep: &mut Report) {
         let cd = cc; // Copy
         chk!(matches!((cc, cd), (COption::Some(7), COption::Some(7))), "C12:coption-payload", "copy");
         rep.add("coption_cases", 12);
+        // clone / clone_from over every (destination, source) variant pair, directly and through slices
+        for (di, si) in [(0u8, 0u8), (0, 1), (1, 0), (1, 1)] {
+            let mk = |some: u8, v: u64| -> COption<u64> { if some == 1 { COption::Some(v) } else { COption::None } };
+            let src = mk(si, 22);
+            let mut dst = mk(di, 11);
+            dst.clone_from(&src);
+            let same = |a: &COption<u64>, b: &COption<u64>| matches!((a, b), (COption::None, COption::None)) || matches!((a, b), (COption::Some(x), COption::Some(y)) if x == y);
+            chk!(same(&dst, &src) && same(&src.clone(), &src), "C12:coption-clone", &format!("clone_from({} <- {}) left the destination different from the source", if di == 1 { "Some(11)" } else { "None" }, if si == 1 { "Some(22)" } else { "None" }));
+            let mut ds = [mk(di, 1), mk(di, 2)];
+            ds.clone_from_slice(&[mk(si, 5), mk(si, 6)]);
+            chk!(same(&ds[0], &mk(si, 5)) && same(&ds[1], &mk(si, 6)), "C12:coption-clone", "clone_from_slice over COption");
+            let mut dv = vec![mk(di, 1)];
+            dv.clone_from(&vec![mk(si, 9)]);
+            chk!(same(&dv[0], &mk(si, 9)), "C12:coption-clone", "Vec::clone_from over COption");
+            rep.add("coption_cases", 3);
+        }
     }
     // ---- CResult
     {
